@@ -512,11 +512,11 @@ pub fn stages(ctx: &Ctx) -> Vec<Stage> {
     let tier = ctx.tier;
     vec![
         Stage::new("poly-anchors", 400, move |i, rep| anchor_case(rep, i)),
-        Stage::new("newton-poly", tier.pick(60_000, 500_000), move |i, rep| {
+        Stage::new("newton-poly", tier.pick(60_000, 2_500_000), move |i, rep| {
             let mut rng = Rng::for_case(seed, "c08-np", i);
             newton_case(&mut rng, rep);
         }),
-        Stage::new("muller", tier.pick(60_000, 500_000), move |i, rep| {
+        Stage::new("muller", tier.pick(60_000, 2_500_000), move |i, rep| {
             let mut rng = Rng::for_case(seed, "c08-mu", i);
             if i % 20 == 7 {
                 muller_symmetric_case(&mut rng, rep);
